@@ -2,6 +2,7 @@
 renderer of exported heaps to Gallina literals (shared by C01, C02, C03, C12, C14, C20).
 Pure Python: no experimaestro import."""
 import copy
+import json
 import struct
 
 from vcommon import gz, gnat, glist, gopt, gbool, gbytes
@@ -717,3 +718,24 @@ def g_types(classes):
 def g_scase(export, node, expect_wf):
     return (f"{{| s_classes := {g_classes(export['classes'])}; s_heap := {g_heap(export['nodes'])}; "
             f"s_types := {g_types(export['classes'])}; s_node := {gnat(node)}; s_expect_wf := {gbool(expect_wf)} |}}")
+
+
+DIAG = {1: "sealed configuration with an unsealed successor", 2: "identifier cached on an unsealed configuration",
+        3: "cached raw identifier (or its loop flag) differs from the one computed afresh",
+        4: "cached full identifier differs from the one computed afresh", 5: "dangling reference / sizes"}
+
+
+def diag_text(pairs):
+    return "; ".join(f"node {n}: {DIAG.get(k, k)}" for n, k in pairs[:6])
+
+
+def selfmark_suffix(desc, pairs):
+    """The recorded C12 finding seen through the cache invariant: a submitted task that marks one of its OWN
+    parameters as its output (class TaskSelf); identifiers were cached at submission, before the mark."""
+    import re as _re
+    subs = {a["n"] for a in desc["actions"] if a["a"] == "submit"}
+    subs |= {int(m) for m in _re.findall(r'"n": (\d+), "t": "out"', json.dumps(desc, sort_keys=True))}
+    selfsub = any(desc["nodes"][n]["cls"] == "TaskSelf" for n in subs if n < len(desc["nodes"]))
+    if selfsub and pairs and all(k in (3, 4) for _, k in pairs):
+        return ":task-marks-own-parameter"
+    return ""
